@@ -54,50 +54,3 @@ func leave(c *vclient.Client, group string) bool {
 	_, ok := c.WaitForFrom(from, func(m vclient.Msg) bool { return m.Str("type") == "joined" && m.Str("kind") == "leave" }, wd)
 	return ok
 }
-
-// quiesce establishes logical quiescence over the given clients: barrier rounds (ping
-// every live client and wait for its pong: everything the server had written to that
-// socket before has then been received) until `rounds` consecutive rounds deliver
-// nothing but pongs.  Unlike vclient.Quiesce a missing pong is not taken for silence:
-// it makes the whole thing undecided.
-func quiesce(cs []*vclient.Client, rounds int, pause time.Duration) bool {
-	deadline := time.Now().Add(3 * wd)
-	idx := make([]int, len(cs))
-	for i, c := range cs {
-		idx[i] = c.EventCount()
-	}
-	fresh := func() int {
-		n := 0
-		for i, c := range cs {
-			evs := c.EventsFrom(idx[i])
-			idx[i] += len(evs)
-			for _, e := range evs {
-				if t := e.M.Str("type"); t != "pong" && t != "ping" {
-					n++
-				}
-			}
-		}
-		return n
-	}
-	quiet := 0
-	for quiet < rounds {
-		if time.Now().After(deadline) {
-			return false
-		}
-		for _, c := range cs {
-			if closed, _ := c.Closed(); closed {
-				continue
-			}
-			if !c.Ping(wd) && !goneSoon(c) {
-				return false
-			}
-		}
-		time.Sleep(pause)
-		if fresh() == 0 {
-			quiet++
-		} else {
-			quiet = 0
-		}
-	}
-	return true
-}
